@@ -329,22 +329,30 @@ Proof.
       * left. exists 0, h. auto.
 Qed.
 
-Theorem progress_proof : forall resp n f s, reach resp (init n f) s -> ~ all_exited s ->
-  exists w cs s', Forall (fun c => worker_of c = w) cs /\ run resp s cs = Some s' /\ mu s' < mu s.
+(* a live worker outside the wait loop: its next step is enabled and decreases the measure *)
+Theorem progress_busy_proof : forall resp n f s w p, reach resp (init n f) s ->
+  nth_error (pcs s) w = Some p -> is_exit p = false -> in_wait_loop p = false ->
+  exists s', step resp s (Own w) = Some s' /\ mu s' < mu s.
 Proof.
-  intros resp n f s R NA. destruct (live_reach _ _ _ _ R) as [S L].
+  intros resp n f s w p R Hp Hx Hi. destruct (live_reach _ _ _ _ R) as [S L].
   pose proof (si_len _ _ _ S) as Hlen.
-  destruct (find_busy (pcs s)) as [(w & p & Hp & Hx & Hi)|AllIdle].
-  - (* a worker outside the wait loop: its next step decreases the measure *)
-    destruct (own_step_some resp (length (pcs s)) w (active s) (quit_now s) p (nth w (deq s) []) Hx) as (e & He).
-    assert (St : exists s', step resp s (Own w) = Some s').
-    { unfold step. rewrite Hp, He. eauto. }
-    destruct St as (s' & St). exists w, [Own w], s'. split; [constructor; auto|]. split.
-    + cbn [run]. rewrite St. auto.
-    + destruct (variant_proof _ _ _ _ Hlen St) as [V|(_ & V & _)]; auto.
-      cbn [worker_of] in V. rewrite (nth_error_nth _ _ _ _ PExit Hp) in V. congruence.
-  - (* everybody alive spins in the wait loop: then a Quit message lies in an exited worker's deque *)
-    destruct (not_all_exited _ NA) as (w & p & Hp & Hx).
+  destruct (own_step_some resp (length (pcs s)) w (active s) (quit_now s) p (nth w (deq s) []) Hx) as (e & He).
+  assert (St : exists s', step resp s (Own w) = Some s').
+  { unfold step. rewrite Hp, He. eauto. }
+  destruct St as (s' & St). exists s'. split; auto.
+  destruct (variant_proof _ _ _ _ Hlen St) as [V|(_ & V & _)]; auto.
+  cbn [worker_of] in V. rewrite (nth_error_nth _ _ _ _ PExit Hp) in V. congruence.
+Qed.
+
+(* everybody alive spins in the wait loop: then a Quit message lies in an exited worker's deque and EVERY
+   live worker, running alone, finds it after at most one turn of its idle loop *)
+Theorem progress_idle_proof : forall resp n f s w p, reach resp (init n f) s ->
+  (forall q, In q (pcs s) -> is_exit q = true \/ in_wait_loop q = true) ->
+  nth_error (pcs s) w = Some p -> is_exit p = false ->
+  exists cs s', Forall (fun c => worker_of c = w) cs /\ run resp s cs = Some s' /\ mu s' < mu s.
+Proof.
+  intros resp n f s w p R AllIdle Hp Hx. destruct (live_reach _ _ _ _ R) as [S L].
+  pose proof (si_len _ _ _ S) as Hlen.
     assert (Hi : in_wait_loop p = true).
     { destruct (AllIdle p (nth_error_In _ _ Hp)); congruence. }
     pose proof (nth_error_lt _ _ _ _ Hp) as Hw.
@@ -373,7 +381,7 @@ Proof.
     { unfold step, steal_step, s1. cbn [with_pc pcs deq]. rewrite nth_error_upd_eq by auto.
       rewrite Dv. cbn [split_mask]. rewrite split_mask_nil. cbn. eauto. }
     destruct St as (s2 & St).
-    exists w, (repeat (Own w) j ++ [Steal w [true] 0]), s2. split; [|split].
+    exists (repeat (Own w) j ++ [Steal w [true] 0]), s2. split; [|split].
     + apply Forall_app. split; [|constructor; auto]. apply Forall_forall. intros c Hc.
       apply repeat_spec in Hc. subst. auto.
     + rewrite (run_app _ _ _ _ _ Run1). cbn [run]. rewrite St. auto.
@@ -385,6 +393,18 @@ Proof.
       cbn [worker_of pcs] in V. rewrite nth_upd_eq in V by (unfold s1; cbn; rewrite length_upd; auto).
       unfold s1 in Hp'. cbn in Hp'. rewrite nth_error_upd_eq in Hp' by auto. inversion Hp'; subst.
       discriminate.
+Qed.
+
+Theorem progress_proof : forall resp n f s, reach resp (init n f) s -> ~ all_exited s ->
+  exists w cs s', Forall (fun c => worker_of c = w) cs /\ run resp s cs = Some s' /\ mu s' < mu s.
+Proof.
+  intros resp n f s R NA.
+  destruct (find_busy (pcs s)) as [(w & p & Hp & Hx & Hi)|AllIdle].
+  - destruct (progress_busy_proof _ _ _ _ _ _ R Hp Hx Hi) as (s' & St & Lt).
+    exists w, [Own w], s'. split; [constructor; auto|]. split; auto. cbn [run]. rewrite St. auto.
+  - destruct (not_all_exited _ NA) as (w & p & Hp & Hx).
+    destruct (progress_idle_proof _ _ _ _ _ _ R AllIdle Hp Hx) as (cs & s' & H1 & H2 & H3).
+    exists w, cs, s'. auto.
 Qed.
 
 (* ---- from every reachable state the walk can still be completed ---- *)
